@@ -180,6 +180,32 @@ def reader_variants(run, progs, every):
     return out
 
 
+EKINDS = ["eof", "eintr", "timeout"]
+
+
+def ekind_variants(run, progs, every):
+    """Generation only: every `every`-th program with a failing transport / writer again, the failure E being an error that
+    wraps io.EOF, an interrupted system call, or a timeout (errors.Is(err, E) still holds for each)."""
+    import copy
+    out, k = [], 0
+    for i, pr in enumerate(progs):
+        hit = [st for st in pr["steps"] if (st.get("op") == "Stream" and (st.get("reader") or {}).get("fate") == "err")
+               or (st.get("op") == "WriteTo" and (st.get("writer") or {}).get("kind") == "fail")]
+        if not hit or (i + run.seed) % every:
+            continue
+        kind = EKINDS[(k + run.seed) % len(EKINDS)]
+        k += 1
+        cp = copy.deepcopy(pr)
+        for st in cp["steps"]:
+            if st.get("op") == "Stream" and (st.get("reader") or {}).get("fate") == "err":
+                st["reader"]["ekind"] = kind
+            elif st.get("op") == "WriteTo" and (st.get("writer") or {}).get("kind") == "fail":
+                st["writer"]["ekind"] = kind
+        cp["meta"] = dict(cp.get("meta") or {}, ekind=kind)
+        out.append(cp)
+    return out
+
+
 def rich_writer_variants(run, progs, every):
     """Generation only: every `every`-th writing program again with a writer that also offers WriteByte / WriteString / ReadFrom."""
     import copy
@@ -200,7 +226,7 @@ def rich_writer_variants(run, progs, every):
 
 
 def check(run, prop, claims, fams, rule, assumptions, level=LEVEL_MC, keep=None, drive_kw=None, extra_cov=None, models=None,
-          extra_progs=None, randoms=0, histories=0, xproc=0, std_readers=0, rich_writers=0, conc_apart=False):
+          extra_progs=None, randoms=0, histories=0, xproc=0, std_readers=0, rich_writers=0, conc_apart=False, ekinds=0):
     if models:
         model_theorems(run, models)
     progs = gather(run, fams) + (extra_progs or [])
@@ -208,6 +234,8 @@ def check(run, prop, claims, fams, rule, assumptions, level=LEVEL_MC, keep=None,
         progs += reader_variants(run, progs, std_readers)
     if rich_writers:
         progs += rich_writer_variants(run, progs, rich_writers)
+    if ekinds:
+        progs += ekind_variants(run, progs, ekinds)
     if randoms:
         progs += random_mutants(run, frame_bytes(progs), randoms)
     if histories:
@@ -433,7 +461,7 @@ def c08(run):
     return check(run, "C08", {"C08"}, [("fault", TYPE_PARTS)],
                  "every corpus frame x every cut offset k in [0, L] x {EOF, error E} x {with the last bytes, on the next call} x "
                  "fragmentations of the delivered prefix", ["D5: errors.Is(err, E) / errors.Is(err, io.EOF) only"],
-                 level="fault_enumeration", models=[("MC_Stream", MC_STREAM_CFG)], std_readers=2)
+                 level="fault_enumeration", models=[("MC_Stream", MC_STREAM_CFG)], std_readers=2, ekinds=3)
 
 
 def c09(run):
@@ -456,7 +484,7 @@ def c10(run):
                  "or several Write calls x every writer that stops after K bytes; completed behaviours satisfy the predicate applied to "
                  "the recorded events)",
                  ["D7: writers obey io.Writer (an error whenever fewer bytes are accepted)"],
-                 histories=400 if run.tier == "quick" else 5000, models=[("MC_Write", MC_WRITE_CFG)], rich_writers=4,
+                 histories=400 if run.tier == "quick" else 5000, models=[("MC_Write", MC_WRITE_CFG)], rich_writers=4, ekinds=3,
                  keep=lambda pr: half(run, ("build",), pr),
                  extra_cov=(count_proof(run, "WriteIOCount", "every frame length, writer limit and splitting over Write calls")
                             if run.tier == "thorough" else None))
